@@ -26,10 +26,20 @@ Finding = Tuple[str, str]
 
 
 class Inst:
-    def __init__(self, built: prog.Built, pre: Dict[str, Any]) -> None:
+    def __init__(self, built: prog.Built, pre: Dict[str, Any], shadow: Any = None) -> None:
         self.b = built
         self.pre = pre  # setup site -> value computed for this instance
         self.conf_seq: Dict[str, bool] = {}
+        self.shadow = shadow  # a DAG built from the same program that only ever sees the config operations
+
+
+def struct(dag: Any) -> Any:
+    """Everything a DAG instance is made of except the results of its setup nodes."""
+    from .dump import dump
+
+    nodes, consts, inputs, rets, mc, edges, cp = dump(dag)
+    setup_ids = {nid for nid, xn in dag.exec_nodes.items() if xn.setup}
+    return (nodes, {k: v for k, v in consts.items() if k not in setup_ids}, inputs, rets, mc, edges, cp)
 
 
 class Interp:
@@ -40,7 +50,7 @@ class Interp:
         self.count_entries = count_entries
         self.cumulative = cumulative
         self.M = Model({"prog": P, "mc": mc})
-        self.insts: List[Inst] = [Inst(prog.build(P, is_async=is_async, mc=mc), {})]
+        self.insts: List[Inst] = [Inst(prog.build(P, is_async=is_async, mc=mc), {}, prog.build(P, is_async=is_async, mc=mc).dag)]
         self.execs: List[Dict[str, Any]] = []
         self.n = 0
         self.setup_entries: Dict[Tuple[int, str], int] = {}  # (instance, setup site) -> entries over the history
@@ -137,6 +147,24 @@ class Interp:
 
     # ------------------------------------------------------------------ ops
     def apply(self, op: Dict[str, Any]) -> List[Finding]:
+        out = self._apply(op)
+        if not out:
+            # a DAG instance carries no state from one operation to the next except setup results
+            for i, inst in enumerate(self.insts):
+                if inst.shadow is None:
+                    continue
+                a, b = struct(inst.b.dag), struct(inst.shadow)
+                if a != b:
+                    names = ["nodes", "constants", "inputs", "returns", "max_concurrency", "edges", "compound_priority"]
+                    diff = [names[k] for k in range(len(a)) if a[k] != b[k]]
+                    detail = ""
+                    if "compound_priority" in diff:
+                        detail = f": {({k: (v, b[6].get(k)) for k, v in a[6].items() if b[6].get(k) != v})}"
+                    out.append(("instance-state-changed", f"after op {self.n} ({op['op']}) instance {i} differs from a DAG that only saw the configuration operations in {diff}{detail}"))
+                    break
+        return out
+
+    def _apply(self, op: Dict[str, Any]) -> List[Finding]:
         self.n += 1
         k = op["op"]
         self.stats[k] += 1
@@ -146,7 +174,8 @@ class Interp:
                 d = copy.deepcopy(src.b.dag)
             except BaseException as e:  # noqa: BLE001
                 return [("copy-raised", f"deepcopy raised {type(e).__name__}: {e}")]
-            self.insts.append(Inst(prog.Built(self.P, d, src.b.xns, src.b.subs), dict(src.pre)))
+            self.insts.append(Inst(prog.Built(self.P, d, src.b.xns, src.b.subs), dict(src.pre),
+                                   copy.deepcopy(src.shadow) if src.shadow is not None else None))
             j = len(self.insts) - 1
             for (ii, s), n in list(self.setup_entries.items()):
                 if ii == op["inst"]:
@@ -198,6 +227,8 @@ class Interp:
                 conf["max_concurrency"] = op["mc"]
             try:
                 inst.b.dag.config_from_dict(conf)
+                if inst.shadow is not None:
+                    inst.shadow.config_from_dict(conf)
             except BaseException as err:  # noqa: BLE001
                 return [("op-raised", f"config_from_dict raised {type(err).__name__}: {err}")]
             return []
